@@ -206,6 +206,46 @@ pub fn run_job(job: BlkJob) -> Vec<String> {
     lines
 }
 
+/// Concurrency stress (real threads): height sources hitting the watcher at the same time.  Each round calls
+/// new_block concurrently with several heights on a multi-thread runtime and then reads the height.  One `batch`
+/// trace line per round; the judge only knows "these heights were told, this is the height afterwards".
+pub fn run_mt(run: u64, rounds: u64, workers: usize, seed: u64) -> Vec<String> {
+    let rt = tokio::runtime::Builder::new_multi_thread().worker_threads(workers).enable_time().build().expect("harness: runtime");
+    let mut lines = vec![json!({"ev":"reset","run":run,"h0":0}).to_string()];
+    let bw = Arc::new(BlockWatcher::new(Arc::new(Rpc::new(String::new()))));
+    let mut rng = Rng::new(seed ^ 0x5151);
+    let mut h: u32 = 10;
+    let out: Vec<String> = rt.block_on(async {
+        let mut v = Vec::new();
+        for _ in 0..rounds {
+            let k = 2 + rng.below(3) as u32;
+            // strictly increasing candidates above the current height, delivered concurrently in a shuffled order
+            let mut hs: Vec<u32> = (1..=k).map(|d| h + d).collect();
+            if rng.below(4) == 0 {
+                hs.push(h.saturating_sub(1 + rng.below(3) as u32)); // a stale one
+            }
+            for i in (1..hs.len()).rev() {
+                hs.swap(i, rng.below(i as u64 + 1) as usize);
+            }
+            let mut js = Vec::new();
+            for x in hs.clone() {
+                let b = Arc::clone(&bw);
+                js.push(tokio::spawn(async move { b.new_block(&BlockAdded { height: x }).await }));
+            }
+            for j in js {
+                let _ = j.await;
+            }
+            let known = bw.current_height().await;
+            v.push(json!({"ev":"batch","hs":hs,"known":known,"issued":0,"started":"ok"}).to_string());
+            h += k;
+        }
+        v
+    });
+    lines.extend(out);
+    lines.push(json!({"ev":"end","run":run}).to_string());
+    lines
+}
+
 pub fn run_file(inp: &str, out: &str) {
     use std::io::{BufRead, Write};
     crate::driver::install_panic_hook();
@@ -215,7 +255,16 @@ pub fn run_file(inp: &str, out: &str) {
         if line.trim().is_empty() {
             continue;
         }
-        let job: BlkJob = serde_json::from_str(&line).expect("harness: blk job");
+        let v: Value = serde_json::from_str(&line).expect("harness: blk job");
+        if v["mt"].is_object() {
+            let ls = run_mt(v["run"].as_u64().unwrap_or(0), v["mt"]["rounds"].as_u64().unwrap_or(1000),
+                            v["mt"]["workers"].as_u64().unwrap_or(4) as usize, v["mt"]["seed"].as_u64().unwrap_or(1));
+            for l in ls {
+                writeln!(w, "{}", l).unwrap();
+            }
+            continue;
+        }
+        let job: BlkJob = serde_json::from_value(v).expect("harness: blk job");
         for l in run_job(job) {
             writeln!(w, "{}", l).unwrap();
         }
